@@ -530,6 +530,13 @@ Fixpoint feval (s : st) (f : filt) (id : Z) : option bool :=
   end.
 Definition ftrue (s : st) (f : filt) (id : Z) : bool := match feval s f id with Some true => true | _ => false end.
 
+(* selectBy(col = v) read as a predicate on one object; v = None: IS NULL *)
+Definition by_true (s : st) (col : option cls) (v : option Z) (id : Z) : bool :=
+  match col with
+  | None => true
+  | Some c => match cmp3 Ceq (val_of s c id) v with Some true => true | _ => false end
+  end.
+
 (* the filter mentions only columns the class has (own and inherited) *)
 Fixpoint fvis (k : cls) (f : filt) : bool :=
   match f with
@@ -569,3 +576,11 @@ Fixpoint clean (auto : bool) (s : st) (ops : list op) : bool :=
   | [] => true
   | o :: r => negb (trigger auto s o) && clean auto (fst (step auto s o)) r
   end.
+
+(* the value a create stores for the column of class l *)
+Definition argval (a : cargs) (l : cls) : option Z :=
+  match validate (arg_of a l) with inr v => v | inl _ => None end.
+
+(* states reached by histories that stay outside the two trigger classes *)
+Definition reachable (auto : bool) (s : st) : Prop :=
+  exists ops, clean auto init ops = true /\ s = run auto init ops.
